@@ -194,3 +194,41 @@ def cases(rng, tier):
         if c.lines and c.lines[0].startswith("sim.new"):
             c.lines = [x for l in c.lines for x in ((l, "sim.dstats") if l == "sim.snap" else (l,))]
         yield c
+
+
+def _highlight_oracle(c, op, latch):
+    """five-stage mode: the address the statistics view highlights is the one held by the pipeline register it is taken from
+    (data: memory address of the load / store in MEM/WB; instruction: address of the instruction in IF/ID), as 32 binary digits"""
+    new = next((l for l in c.lines if l.startswith("sim.new")), None)
+    if new is None or new.split()[1] != "five":
+        return []
+    outs = list(zip(c.lines, c.impl_out))
+    for k, (l, o) in enumerate(outs):
+        if l != op or o in ("none", "") or o.startswith(("X", "bad")) or k == 0 or outs[k - 1][0] not in ("sim.snap", "sim.dstats", "sim.istats"):
+            continue
+        snap = next((oo for ll, oo in reversed(outs[:k]) if ll == "sim.snap"), None)
+        if snap is None or any(ll not in ("sim.snap", "sim.dstats", "sim.istats", "sim.icachetable", "sim.dcachetable") for ll, _ in outs[k - 1:k]):
+            continue
+        d = rvgen.parse_snap(snap)
+        v = d.get(latch, "-")
+        want = "-"
+        if v != "-" and "@" in v:
+            f = dict(x.split("=", 1) for x in v.split(";")[1:] if "=" in x)
+            text = bytes.fromhex(v.split("@")[0]).decode()
+            if latch == "L0":
+                want = format(int(v.split(";")[0].split("@")[1]) % 2**32, "032b")
+            elif text.split()[0] in ("lb", "lh", "lw", "lbu", "lhu", "sb", "sh", "sw") and f.get("res", "-") != "-":
+                want = format(int(f["res"]) % 2**32, "032b")
+        got = o.split(",")[3]
+        got = "-" if got == "-" else bytes.fromhex(got).decode()
+        if got != want:
+            return [Failure("oracle", PROP, f"`{op}` highlights {got}; the pipeline register {latch} holds {v[:60]} (expected {want})", "stats:highlight")]
+    return []
+
+_HIGHLIGHT = ("sim.dstats", "L3")
+
+_oracle_nohighlight = oracle
+
+
+def oracle(c):
+    return _oracle_nohighlight(c) or _highlight_oracle(c, *_HIGHLIGHT)
